@@ -812,6 +812,12 @@ impl<'a> FnCx<'a> {
                 Ok(())
             }
             syn::Expr::Field(f) => {
+                // the field's own type must be inside the grammar (a `Unit` slot cannot be assigned)
+                if let Ok(cur) = self.tr_expr(&syn::Expr::Field(f.clone()), &mut vec![]) {
+                    if cur.ty == Ty::Unknown || cur.ty == Ty::Unit {
+                        return err(f, "assignment to a field whose type is outside the grammar");
+                    }
+                }
                 let (root, path) = self.field_path(&syn::Expr::Field(f.clone()))?;
                 let upd = self.nested_update(&root, &path, &v.val);
                 self.pline(lines, &root, upd);
